@@ -178,6 +178,15 @@ let () = iter_lines (fun line ->
       let evs = String.concat " " (Stdlib.List.rev_map ev s'.trace) in
       let blk b = if h.alive (i2n b) then Printf.sprintf "b%d+" b else Printf.sprintf "b%d-" b in
       Printf.printf "%s | %s | %s\n" out evs (String.concat " " (Stdlib.List.init (n2i h.next) blk))
+    | ["openadd"; _; n; k; kind] ->
+      let n = int_of_string n and k = int_of_string k in
+      let cap = if kind = "o2" then 3 else 4 in
+      let s = mk_state_r [(10, 1); (11, n); (12, cap)] [[Live (i2n 7)]; lives 100 n @ raws (cap - n)] k in
+      let (r, s') = Ctor.bucket_add_inplace (ObjMgr.creator_copy (loc 0 0)) s in
+      let out = match r with Ok _ -> "Ok" | Exn -> "Exn" | Stuck -> "Stuck" in
+      let kinds = Stdlib.List.filter (fun x -> x <> "") (Stdlib.List.rev_map (function EvC _ -> "C" | EvM _ -> "M" | EvX _ -> "X" | EvF -> "F" | _ -> "") s'.trace) in
+      let vals = Stdlib.List.sort compare (Stdlib.List.concat (Stdlib.List.init cap (fun i -> match s'.hp.mem (loc 1 i) with Live v -> [n2i v] | _ -> []))) in
+      Printf.printf "cnt=%d %s | %s | %s\n" (n2i (s'.hp.regs (i2n 11))) out (String.concat " " kinds) (String.concat " " (Stdlib.List.map string_of_int vals))
     | ["noderemove"; _; n; k; index] ->
       let n = int_of_string n and k = int_of_string k and index = int_of_string index in
       let cap = if n <= 2 then 2 else 4 in
